@@ -638,6 +638,8 @@ public:
                         }
                         else if (!vd->getType()->isDependentType())
                             o["init_kind"] = vd->hasDefinition() || vd->isStaticDataMember() ? "zero" : "extern";
+                        else
+                            o["init_kind"] = "dependent";
                     }
                     // constant tables: the initialiser of a const global (small literal lists only)
                     if (!inConstInit && ctx.getBaseElementType(vd->getType()).isConstQualified())
@@ -1541,6 +1543,10 @@ public:
                 if (p->getType().getNonReferenceType().isConstQualified())
                     po["constref"] = true;
             }
+            // the default argument is evaluated at every call that leaves the parameter out: part of the function's behaviour
+            if (p->hasDefaultArg() && !p->hasUnparsedDefaultArg() && !p->hasUninstantiatedDefaultArg())
+                if (const Expr* de = p->getDefaultArg())
+                    po["default"] = JE(de);
             params.push_back(std::move(po));
         }
         f["params"] = std::move(params);
